@@ -125,6 +125,9 @@ def check(case, ctx):
     net = Net.of(c)
     probs = own_lint(net)
     okl, rl = ctx.call(cg.lint, c)
+    if okl and case["seed"] % 3 == 0:
+        okl, rl = ctx.call(cg.lint, c, fail_fast=False, single_input_gates=False)
+        ctx.count("lint_collect_mode")
     if probs or not okl:
         ctx.violation(blk + "_lint", f"logic.{blk}({w}) is not lint-clean: {probs[:3]} {rl if not okl else ''}")
         return
